@@ -137,6 +137,26 @@ Definition fin_eqb (a b : fin) : bool :=
   opt_eqb bytes_eqb (f_cache a) (f_cache b) &&
   list_eqb N.eqb (f_results a) (f_results b).
 
+(* ---- the piece status machine on its own (pieces.go:89-128), answered by the step function the
+        theorems are about: for a piece whose status byte is b, what complete(), dirty(),
+        tryMarkDirty() answer and what status tryMarkDirty / markEmpty / markComplete leave ---- *)
+Definition pc_code (p : pc) : N :=
+  match p with
+  | PDone r => res_code r | POwn _ => 10 | PNotComplete _ => 11 | PNotDirty _ => 12 | PMarked => 13 | _ => 99
+  end%N.
+Definition piece_unit (b : N) : list N :=
+  let st := if N.eqb b 1 then Complete else if N.eqb b 2 then Dirty else Empty in
+  let c := mkcfg 1 1 [0%N] in
+  let w := mkw 0 1 [] 0 in
+  let s := mkts [st] [] [0%N] 0 false false in
+  let r3 := tstep c s w (PNotDirty 0) in
+  [ pc_code (snd (tstep c s w (PChecked 0)));
+    pc_code (snd (tstep c s w (PNotComplete 0)));
+    pc_code (snd r3);
+    status_byte (st_at (fst r3) 0);
+    status_byte (st_at (fst (tstep c s w (PFailed 0))) 0);
+    status_byte (st_at (fst (tstep c s w (PSidecar 0))) 0) ].
+
 (* ---- histories ---- *)
 Inductive hop :=
 | HAdv (k : nat)          (* macro step of caller k *)
@@ -208,6 +228,8 @@ Definition state_ok (o : obs) : bool :=
 Definition final_ok (ws : list winput) (o : obs) (f : fin) : bool :=
   let n := npieces c in
   N.eqb (o_ncomp o) (N.of_nat (popcount (o_bits o))) &&
+  (* nobody is inside WritePiece => no piece is left dirty (a failed write gives the piece back) *)
+  forall_idx n (fun i => negb (N.eqb (nth i (o_status o) 0%N) 2)) &&
   Nat.eqb (length (f_pieces f)) n &&
   forall_idx n (fun i => match nth i (f_pieces f) None with
                          | Some d => nth_bit (o_bits o) i && bytes_eqb d (bpiece i)
@@ -225,6 +247,8 @@ Definition final_ok (ws : list winput) (o : obs) (f : fin) : bool :=
     let valid := (0 <=? w_idx w)%Z && (w_idx w <? Z.of_nat n)%Z in
     let i := Z.to_nat (w_idx w) in
     implb (N.eqb r 0) (valid && bytes_eqb (payload w) (bpiece i) && nth_bit (o_bits o) i) &&
+    (* a write error means the streamed checksum did not match: good bytes are never refused so *)
+    implb (N.eqb r 5) (valid && negb (N.eqb (w_hsum w) (psum c i))) &&
     implb (negb valid || negb (w_decl w =? Z.of_nat (plen c i))%Z)
           (N.eqb r 1 || N.eqb r 9 || (N.eqb r 7 && (w_idx w <? 0)%Z))).
 
